@@ -294,7 +294,7 @@ def handleLine (st : St) (line : String) : IO St := do
     -- model-free: ByteParser's events differ from those of the crate's own character recogniser fed with the
     -- reference decoding of the same bytes
     let rest := (line.splitOn " | ")
-    emit st "DECODE" "feed" s!"the bytes of this feed were not decoded as a conforming streaming decoder decodes them: call #{toks.getD 1 "?"} is `{rest.getD 1 "?"}`, the crate's own recogniser makes `{rest.getD 2 "?"}` of the reference decoding"
+    emit st "DECODE" "feed" s!"[{toks.getD 2 "?"} mode] the bytes of this feed were not decoded as the reference decodes them (UTF-8: a conforming streaming decoder; 8-bit: one byte, one code point): call #{toks.getD 1 "?"} is `{rest.getD 1 "?"}`, the crate's own recogniser makes `{rest.getD 2 "?"}` of the reference decoding"
   | "Z" | "X" => return st
   | other => emit st "TIE" "-" s!"unknown log line kind {other}"
 
